@@ -216,7 +216,7 @@ fn judge(argv: &[&str], stdin_k: usize, stdout: &Stdout, dir: &Path, canon: &Can
 		if !o.stdout.is_empty() {
 			return Some(("invalid-argv-wrote-stdout".into(), o.brief()));
 		}
-		if !stderr_ok || !String::from_utf8_lossy(&o.stderr).contains("Usage:") {
+		if !stderr_ok || !String::from_utf8_lossy(&o.stderr).to_ascii_lowercase().contains("usage") {
 			return Some(("invalid-argv-without-usage-message".into(), o.brief()));
 		}
 		return None;
